@@ -133,6 +133,32 @@ fn c16_answer(line: &str) -> String {
     }
 }
 
+/// `RENUMLINE <old>:<new>,… <hex line>`: the real `Line::new(src).renum(&changes)`.
+fn renum_answer(arg: &str) -> String {
+    let (ch, h) = match arg.find(' ') {
+        Some(i) => (&arg[..i], &arg[i + 1..]),
+        None => (arg, ""),
+    };
+    let mut changes: std::collections::HashMap<u16, u16> = std::collections::HashMap::new();
+    if ch != "-" && !ch.is_empty() {
+        for p in ch.split(',') {
+            let mut it = p.split(':');
+            match (it.next().and_then(|a| a.parse().ok()), it.next().and_then(|b| b.parse().ok())) {
+                (Some(a), Some(b)) => {
+                    changes.insert(a, b);
+                }
+                _ => return "bad-request".into(),
+            }
+        }
+    }
+    let line = Line::new(&unhex(h)).renum(&changes);
+    let n = match line.number() {
+        Some(n) => n.to_string(),
+        None => "-".into(),
+    };
+    format!("{} {}", n, hex(&line.to_string()))
+}
+
 fn answer_inner(req: &str) -> String {
     let (cmd, arg) = match req.find(' ') {
         Some(i) => (&req[..i], &req[i + 1..]),
@@ -146,6 +172,9 @@ fn answer_inner(req: &str) -> String {
                 std::thread::sleep(Duration::from_millis(50));
             }
         }
+    }
+    if cmd == "RENUMLINE" {
+        return renum_answer(arg);
     }
     let line = unhex(arg);
     match cmd {
@@ -700,6 +729,161 @@ pub fn gen_rand<W: Write>(w: &mut W, tier: &str, seed: u64) {
     for _ in 0..n {
         let line = random_line(&mut rng);
         pool.push('K', format!("LEX {}", hex(&line)));
+    }
+    pool.finish();
+}
+
+/// lines with every form of line-number reference (and some that have none or do not parse)
+pub const RENUM_LINES: &[&str] = &[
+    "10 GOTO 100",
+    "20 GOSUB 200",
+    "30 IF A THEN 100 ELSE 200",
+    "40 IF A=1 THEN GOTO 100",
+    "50 IF A GOTO 100",
+    "60 IF A THEN PRINT 1:GOTO 100 ELSE GOSUB 200:GOTO 300",
+    "70 ON X GOTO 100,200,300",
+    "80 ON X GOSUB 100, 200 ,300",
+    "90 RESTORE 100",
+    "100 RESTORE",
+    "110 RUN 100",
+    "120 RUN",
+    "LIST 100-200",
+    "LIST 100-",
+    "LIST -200",
+    "LIST",
+    "LIST 100",
+    "DELETE 100-200",
+    "DELETE 100",
+    "DELETE -200",
+    "DELETE 100-",
+    "130 PRINT \"\u{e9}\u{65e5}\u{672c}\u{8a9e}\":GOTO 100",
+    "140 PRINT \"\u{65e5}\u{672c}\u{8a9e}\u{65e5}\u{672c}\u{8a9e}\u{65e5}\u{672c}\u{8a9e}\":GOSUB 200:ON X GOTO 100,200",
+    "145 A$=\"\u{1f600}\"+\"\u{e9}\":IF A$=\"\u{e9}\" THEN 100 ELSE 200",
+    "150 GOTO 100:GOTO 100",
+    "160 GOTO 65529",
+    "170 GOTO 65530",
+    "180 GOTO 99999",
+    "190 GOTO 1E2",
+    "200 GOTO 100.5",
+    "210 GOTO 100#",
+    "215 GOTO 100!",
+    "220 GOTO 100%",
+    "225 GOTO 1D2",
+    "230 GOTO A",
+    "240 IF A THEN 100",
+    "250 IF A THEN 100 ELSE 100",
+    "260 FOR I=100 TO 200:NEXT",
+    "270 X=100:PRINT 100",
+    "280 REM GOTO 100",
+    "290 GOTO 100 ' 100",
+    "300 GOTO100",
+    "310 goto 100:gosub200",
+    "320 GO TO 100",
+    "325 GO SUB 100",
+    "330 ON X GOTO 100,,200",
+    "340 GOTO",
+    "350 PRINT (",
+    "GOTO 100",
+    "360 IF A THEN IF B THEN 100 ELSE 200 ELSE 300",
+    "370 GOTO 0",
+    "380 GOTO 00100",
+    "390 LIST 100-200:GOTO 300",
+    "400 GOTO &H64",
+    "410 ON X GOTO 100.7,200",
+    "420 ON X+100 GOSUB 100",
+    "430 RESTORE:RUN:RESTORE 100:RUN 200",
+    "440 IF A THEN RESTORE ELSE RUN 100",
+    "450 WHILE A:GOTO 100:WEND",
+    "460 PRINT 1:ELSE GOTO 100",
+    "470 CLEAR 100:GOTO 100",
+    "480 GOTO 100:PRINT \"unterminated",
+    "490   GOTO   100  :  GOSUB  200  ",
+    "500 GOTO 1e2",
+    "510 RENUM 100,10,5",
+    "520 DELETE 100-200:LIST 300-400",
+    "530 GOTO -100",
+    "540 ON X GOTO 100:ON Y GOSUB 200:GOTO 300",
+    "65529 GOTO 65529",
+    "  550   IF A<=B THEN 100",
+    "560 IF A THEN 100:REM 200",
+    "570",
+    "",
+];
+
+pub fn gen_renum<W: Write>(w: &mut W, tier: &str, seed: u64) {
+    let n = if tier == "thorough" { 400_000 } else { 20_000 };
+    let mut rng = Rng::new(seed ^ 0x4e);
+    let mut pool = Pool::new(w);
+    let keys: &[u16] = &[0, 1, 10, 20, 30, 60, 100, 150, 200, 300, 400, 550, 65529, 65530, 64, 101, 145, 570];
+    for l in RENUM_LINES {
+        pool.push('K', format!("RENUMLINE - {}", hex(l)));
+        pool.push('K', format!("RENUMLINE 100:1000,200:5,300:65529 {}", hex(l)));
+    }
+    for _ in 0..n {
+        let mut line: String = if rng.chance(1, 8) {
+            rng_pick_str(&mut rng, LINES).to_string()
+        } else {
+            rng_pick_str(&mut rng, RENUM_LINES).to_string()
+        };
+        if rng.chance(1, 4) {
+            // mutate: the same character-level mutations as the lexer layer
+            let mut c: Vec<char> = line.chars().collect();
+            for _ in 0..1 + rng.below(2) {
+                let len = c.len();
+                match rng.below(4) {
+                    0 if len > 0 => {
+                        c.remove(rng.below(len));
+                    }
+                    1 => {
+                        c.insert(rng.below(len + 1), *rng.pick(WIDE));
+                    }
+                    2 if len > 0 => {
+                        c[rng.below(len)] = *rng.pick(WIDE);
+                    }
+                    _ => {
+                        c.retain(|x| *x != ' ');
+                    }
+                }
+            }
+            line = c.into_iter().collect();
+        }
+        let mut map: Vec<(u16, u16)> = vec![];
+        // the numbers that occur in the line, each with probability 1/2, then some others
+        let mut cands: Vec<u16> = vec![];
+        let mut cur = String::new();
+        for c in line.chars().chain(std::iter::once(' ')) {
+            if c.is_ascii_digit() {
+                cur.push(c);
+            } else if !cur.is_empty() {
+                if let Ok(k) = cur.parse::<u16>() {
+                    if rng.chance(1, 2) {
+                        cands.push(k);
+                    }
+                }
+                cur.clear();
+            }
+        }
+        for _ in 0..rng.below(4) {
+            cands.push(if rng.chance(3, 4) { *rng.pick(keys) } else { rng.below(65536) as u16 });
+        }
+        for k in cands {
+            if map.iter().any(|(a, _)| *a == k) {
+                continue;
+            }
+            let v = match rng.below(6) {
+                0 => rng.below(10) as u16,
+                1 => 65529,
+                2 => rng.below(65536) as u16,
+                _ => (rng.below(6000) * 10) as u16,
+            };
+            map.push((k, v));
+        }
+        let ch = if map.is_empty() {
+            "-".to_string()
+        } else {
+            map.iter().map(|(a, b)| format!("{}:{}", a, b)).collect::<Vec<_>>().join(",")
+        };
+        pool.push('K', format!("RENUMLINE {} {}", ch, hex(&line)));
     }
     pool.finish();
 }
